@@ -23,6 +23,8 @@ ASSUMPTIONS = [
 MIN_NONTRIVIAL = {"quick": 3000, "thorough": 40000}
 REQUIRED_COUNTERS = {"obs_nonframe_leaf": {"quick": 300, "thorough": 3000},
                      "obs_falsy_leaf": {"quick": 100, "thorough": 1000},
+                     "chains_deeper_than_100": {"quick": 6, "thorough": 6},
+                     "chains_with_agen_payload": {"quick": 100, "thorough": 1000},
                      "obs_agen_links": {"quick": 300, "thorough": 3000},
                      "exhausted_checked": {"quick": 300, "thorough": 3000}}
 SHARD_TIMEOUT = {"quick": 400, "thorough": 5400}
@@ -168,6 +170,11 @@ def worker(spec):
     # deeper, sampled, with pre/post suspensions
     specs += [s for s in chains.enumerate_specs(spec["depth"], rng=rng, sample=spec["sample"])]
     specs = [s for i, s in enumerate(specs) if i % spec["parts"] == spec["part"]]
+    # very deep chains: > 100 await / yield-from levels, each level a real frame
+    if spec["part"] == 0:
+        for n in (101, 120, 140):
+            specs.append(("gen", [("yf", 0, 0)] * n, "yield"))
+            specs.append(("co", [("co", 0, 0)] * n, "trap"))
     state = {}
     for cs in specs:
         if budget.over():
@@ -175,6 +182,10 @@ def worker(spec):
             break
         n = check_chain(cs, res, interp, chains, stackscope, state)
         res.count("chains")
+        if len(cs[1]) > 100:
+            res.count("chains_deeper_than_100")
+        if any(k[0] == "asend_payload" for k in cs[1]):
+            res.count("chains_with_agen_payload")
         res.count("chains_root_" + cs[0])
         if len(res.samples) < 2 and len(cs[1]) >= 2:
             res.sample({"spec": repr(cs), "suspensions": n})
